@@ -111,9 +111,16 @@ func (c *checker) checkView(view string, block, head uint64, sr core.StateReader
 			if err == nil {
 				c.fail("missing-not-found", view, block, head, "class_hash", addr, nil, "not found", ch.String())
 			}
-		default: // system contract: exists without class; zero or not-found are both legitimate
-			if err == nil && !ch.IsZero() {
-				c.fail("wrong-value", view, block, head, "class_hash", addr, nil, "0 or not found", ch.String())
+		default:
+			// system contract 0x1/0x2 that has been written: it exists (its leaf - class hash 0, nonce 0,
+			// storage root - is part of the state commitment) without a class, so the value is zero.
+			// Every view of both implementations answers (0, nil); "not found" here would make the
+			// contract's storage readable while the contract itself is reported as absent.
+			c.r.Count("system_contract_class_hash_reads", 1)
+			if err != nil {
+				c.fail("unexpected-error", view, block, head, "class_hash", addr, nil, "0 (system contract that has storage)", "error: "+err.Error())
+			} else if !ch.IsZero() {
+				c.fail("wrong-value", view, block, head, "class_hash", addr, nil, "0", ch.String())
 			}
 		}
 		// nonce
@@ -131,8 +138,10 @@ func (c *checker) checkView(view string, block, head uint64, sr core.StateReader
 				c.fail("missing-not-found", view, block, head, "nonce", addr, nil, "not found", nv.String())
 			}
 		default:
-			if err == nil && !nv.IsZero() {
-				c.fail("wrong-value", view, block, head, "nonce", addr, nil, "0 or not found", nv.String())
+			if err != nil {
+				c.fail("unexpected-error", view, block, head, "nonce", addr, nil, "0 (system contract that has storage)", "error: "+err.Error())
+			} else if !nv.IsZero() {
+				c.fail("wrong-value", view, block, head, "nonce", addr, nil, "0", nv.String())
 			}
 		}
 		// storage
@@ -425,7 +434,7 @@ func TestC03(t *testing.T) {
 	r.Cases(n, 0, func(idx int) { runHistory(r, idx) })
 	r.Cases(r.N(120, 3000), 0, func(idx int) { runOvertaken(r, idx) })
 	r.Assume("the reference model interprets a state diff as the Starknet specification does (deploy, replace, nonce, storage with zero = unset, declare, CASM migration)")
-	r.Assume("storage reads of a contract that does not exist may answer zero or not-found (never a value); system contracts 0x1/0x2 may report class hash / nonce as zero or not-found")
+	r.Assume("storage reads of a contract that does not exist may answer zero or not-found (never a value); system contracts 0x1/0x2 that have been written report class hash / nonce zero")
 	r.Finish("case = random history (grow / revert / regrow on a different fork, 2-6 segments, chains up to 14 (quick) or 54 (thorough) blocks, all block formats) stored on a legacy and a new-state node; "+
 		"after every segment every block<=head is queried by number, by hash and at head for every contract (incl. never-deployed and system), slot (incl. last-bit neighbours, never-written), "+
 		"class (incl. undeclared) and compared with a map-based model; distinct = distinct (script, tip hash)", 20)
